@@ -47,7 +47,8 @@ def build_index(w, rec, variant, coin='bitcoin'):
             status |= btc.FAILED_CHILD if pf else btc.FAILED_VALID
         if (b * 7 + variant) % 3 == 0:
             status |= btc.OPT_WITNESS
-        d.record(blk['hdr'], r['h'], status, 1 if r['data'] else 0, fileno, off, undo=off + 1000)
+        # nTx > 0 once the transactions were received, also when the data has been pruned since
+        d.record(blk['hdr'], r['h'], status, 1 if r['data'] or r['valid'] >= 3 else 0, fileno, off, undo=off + 1000)
     if not d.files:
         d.raw(0, b'')
     d.core_extras()
@@ -61,7 +62,7 @@ def main(ck, tier, w):
     cfg = 'CoreIndex_q' if quick else 'CoreIndex_t'
     res = run.tlc('CoreIndex', cfg, workers=8, timeout=1800)
     ck.add_tlc(res, cfg)
-    ck.require_actions(res, ['AcceptHeader', 'AcceptBlock', 'DisconnectToFork', 'ConnectOk', 'ConnectFail'], cfg)
+    ck.require_actions(res, ['AcceptHeader', 'AcceptBlock', 'DisconnectToFork', 'ConnectOk', 'ConnectFail', 'Prune'], cfg)
     uniq = {}
     for r in res.replay:
         r['recs'] = sorted(r['recs'], key=lambda x: x['id'])
